@@ -132,12 +132,26 @@ def run(chk):
         ins = [n for n in walk(f["body"]) if n.get("k") == "call" and n.get("name") in ("push_back", "emplace_back", "insert", "emplace", "operator[]") and
                n.get("obj") is not None and strip_casts(n["obj"]).get("vid") == vid]
         ok = bool(ins)
+        from ..paths import ref_inits
+        locs8 = ref_inits(f)
+
+        def expand(a, depth=0):
+            """the argument with local variables replaced by their initialisers (a named element is judged by what it was built from)"""
+            out = [a]
+            if depth < 4:
+                for x in walk(a):
+                    if x.get("k") == "ref" and x.get("rk") == "local" and x.get("vid") != vid:
+                        v = locs8.get(x.get("vid"))
+                        if v is not None and v.get("init") is not None and not any(y.get("k") == "assign" and strip_casts(y["lhs"]).get("vid") == x.get("vid") for y in walk(f["body"])):
+                            out += expand(v["init"], depth + 1)
+            return out
         for n in ins:
-            vals = [x for a in n.get("args", []) for x in walk(a) if x.get("k") == "call" and x.get("name") == "eval"]
-            clones = [x for a in n.get("args", []) for x in walk(a) if x.get("k") == "call" and x.get("name") == "clone_if_necessary"]
+            argx = [e for a in n.get("args", []) for e in expand(a)]
+            vals = [x for a in argx for x in walk(a) if x.get("k") == "call" and x.get("name") == "eval"]
+            clones = [x for a in argx for x in walk(a) if x.get("k") == "call" and x.get("name") == "clone_if_necessary"]
             # every evaluated *value* (not the map key, which is converted to a std::string copy) is wrapped
             wrapped = sum(1 for c in clones for x in walk(c) if x.get("k") == "call" and x.get("name") == "eval")
-            keyconv = sum(1 for a in n.get("args", []) for x in walk(a) if x.get("k") == "call" and x.get("name") == "boxed_cast" for y in walk(x) if y.get("k") == "call" and y.get("name") == "eval")
+            keyconv = sum(1 for a in argx for x in walk(a) if x.get("k") == "call" and x.get("name") == "boxed_cast" for y in walk(x) if y.get("k") == "call" and y.get("name") == "eval")
             if wrapped + keyconv != len(vals) or not clones:
                 ok = False
         r3.ob("%s inserts only cloned element values" % cname, ok, f.where, f["q"], "an evaluated child value is inserted without clone_if_necessary")
